@@ -28,6 +28,7 @@ structure FuncDecl where
   params : List Field
   results : List Field
   doc : String := ""
+  typeParams : Bool := false      -- a generic function (`func F[T any](…)`): cannot be called without instantiation
   deriving DecidableEq, Repr
 
 /-- `fmt.Sprint(param.Type)` for the cases `argTypes` distinguishes -/
